@@ -152,7 +152,7 @@ structure CAttr where
 /-- members of GKFparser read by later checks -/
 structure Ctx where
   standpointId : List Char := []     -- standpoint_id
-  ppId : List Char := []             -- pp_id (not cleared between points)
+  ppId : List Char := []             -- pp_id (cleared at the top of process_point since c9d862c: `varInit .point_ "pp_id"` is `.empty`)
   idim : Nat := 0
   iband : Nat := 0
   nobs : Nat := 0                    -- observation_list.size() of the open cluster
@@ -234,7 +234,7 @@ def applyEff (ctx : Ctx) (g : Handler) (as attrs : List CAttr) (e : Effects) : C
   let c5 := match e.cov with
     | some (a, b) => { c4 with idim := (toIndex (env ctx g as a)).getD 0, iband := (toIndex (env ctx g as b)).getD 0 }
     | none => c4
-  if varInit g "pp_id" == .ppId then { c5 with ppId := env ctx g as "pp_id" } else c5
+  if (attrNames g).any (fun a => bindVar g a == some "pp_id") then { c5 with ppId := env ctx g as "pp_id" } else c5
 
 def startCtx (ctx : Ctx) (h : Handler) (attrs : List CAttr) : Ctx :=
   let g := valueHandler h
